@@ -892,7 +892,7 @@ def r_mag(E):
                     "R-MAG", key,
                     f"{q} takes a bare number out of `{norm(recv)[:70]}` while its unit is whatever the input was typed "
                     f"in: the result changes when the same quantity is expressed in another unit (GB/MB, years/days…)",
-                    rel, n.lineno, q, {"clauses": ["all"] + (["operators"] if rel.endswith("explainable_objects.py") else []) + (["infra"] if "core/hardware/" in rel else [])}))
+                    rel, n.lineno, q, {"clauses": ["all"] + (["operators"] if rel.endswith("explainable_objects.py") else []) + (["infra"] if "core/hardware/" in rel else []) + (["update"] if rel.endswith("modeling_update.py") else [])}))
             else:
                 counts[verdict.split(" (")[0][:40]] = counts.get(verdict.split(" (")[0][:40], 0) + 1
                 if len(res.samples) < 8:
@@ -936,7 +936,7 @@ def r_mag(E):
                     "R-MAG", f"{rel}:{q} :: {norm(n)[:90]} call-site unit",
                     f"{q} rounds `{norm(recv)[:60]}` whose unit is not statically fixed: ceil/round of 0.5 TB and of "
                     f"500 GB differ, so the result depends on the unit the input was typed in", rel, n.lineno, q,
-                    {"clauses": ["all"] + (["operators"] if rel.endswith("explainable_objects.py") else []) + (["infra"] if "core/hardware/" in rel else [])}))
+                    {"clauses": ["all"] + (["operators"] if rel.endswith("explainable_objects.py") else []) + (["infra"] if "core/hardware/" in rel else []) + (["update"] if rel.endswith("modeling_update.py") else [])}))
             elif len(res.samples) < 12:
                 res.samples.append({"site": f"{rel}:{int(n.lineno)} {q}", "rounding": norm(n)[:70], "receiver_unit": u[1]})
     # comparisons with an absolute tolerance: np.isclose / np.allclose add atol (1e-8 by default) to bare magnitudes, taken
@@ -972,7 +972,7 @@ def r_mag(E):
                 f"{q} compares `{norm(n.args[0])[:40]}` and `{norm(n.args[1])[:40]}` with an absolute tolerance "
                 f"({'the default atol=1e-8' if tol == 'default' else norm(tol)}) applied to the bare magnitudes in whatever unit "
                 f"the first operand was typed in: two values are 'equal' in one unit and different in another", rel,
-                n.lineno, q, {"clauses": ["all"] + (["operators"] if rel.endswith("explainable_objects.py") else []) + (["infra"] if "core/hardware/" in rel else [])}))
+                n.lineno, q, {"clauses": ["all"] + (["operators"] if rel.endswith("explainable_objects.py") else []) + (["infra"] if "core/hardware/" in rel else []) + (["update"] if rel.endswith("modeling_update.py") else [])}))
     res.breakdown = counts
     res.floor = 26
     return res
